@@ -28,15 +28,27 @@ func (w *World) custody(denom string) *big.Rat {
 		if t.Denom != denom {
 			continue
 		}
+		cold := ext.ParseAddr(ColdStorage[t.Chain])
 		if t.Chain == "minter" {
 			if w.Minter != nil {
 				sum.Add(sum, ToHubUnits(w.Minter.Custody(mustUint(t.ExtID)), t.Decimals))
+				if r := w.Minter.Received["mx"+hexs(cold[:])]; r != nil && r[mustUint(t.ExtID)] != nil {
+					sum.Add(sum, ToHubUnits(r[mustUint(t.ExtID)], t.Decimals))
+				}
 			}
 		} else if e := w.Eth[t.Chain]; e != nil {
 			sum.Add(sum, ToHubUnits(e.Custody(ext.ParseAddr(t.ExtID)), t.Decimals))
+			sum.Add(sum, ToHubUnits(e.BalanceOf(ext.ParseAddr(t.ExtID), cold), t.Decimals))
 		}
 	}
 	return sum
+}
+
+// ColdStorage: the governance cold-storage addresses of the deployment (custody, per the property statement).
+var ColdStorage = map[string]string{"minter": "0x7072558b2b91e62dbed78e9a3453e5c9e01fec5e", "ethereum": "0x58BD8047F441B9D511aEE9c581aEb1caB4FE0b6d", "bsc": "0xbCc2Fa395c6198096855c932f4087cF1377d28EE"}
+
+func toCold(ch string, e *mhub2types.SendToExternal) bool {
+	return ext.ParseAddr(e.ExternalRecipient) == ext.ParseAddr(ColdStorage[ch])
 }
 
 func entryTotal(e *mhub2types.SendToExternal) *big.Int {
@@ -50,6 +62,9 @@ func (o *C01) inflight(w *World, s *Snap, denom string, discountExecuted bool) *
 	sum := new(big.Rat)
 	for _, ch := range Chains {
 		for _, e := range s.Pool[ch] {
+			if toCold(ch, e) {
+				continue // custody-to-custody move decided by governance
+			}
 			if t := w.TokenOf(ch, e.Token.ExternalTokenId); t != nil && t.Denom == denom {
 				sum.Add(sum, ToHubUnits(entryTotal(e), t.Decimals))
 			}
@@ -57,6 +72,9 @@ func (o *C01) inflight(w *World, s *Snap, denom string, discountExecuted bool) *
 		for k, b := range s.Batches[ch] {
 			done := discountExecuted && o.executed[ch+"|"+k]
 			for _, e := range b.Transactions {
+				if toCold(ch, e) {
+					continue
+				}
 				if t := w.TokenOf(ch, e.Token.ExternalTokenId); t != nil && t.Denom == denom {
 					v := entryTotal(e)
 					if done {
@@ -83,6 +101,9 @@ func (o *C01) Init(w *World) {
 }
 
 func (o *C01) solvent(w *World, where string) {
+	if w.Tainted {
+		return
+	}
 	s := w.T().Cur
 	for _, d := range w.Cfg.Denoms() {
 		w.St.Check("C01:solvency")
@@ -128,6 +149,9 @@ func (w *World) lockedBy(chain string, nonce uint64) (string, *big.Rat) {
 }
 
 func (o *C01) ledger(w *World, at string, allow map[string]*big.Rat) {
+	if w.Tainted {
+		return
+	}
 	s := w.T().Cur
 	for _, d := range w.Cfg.Denoms() {
 		w.St.Check("C01:ledger-delta")
@@ -370,6 +394,9 @@ func (o *C11) maxDiscount(w *World, addrs ...string) *big.Rat {
 }
 
 func (o *C11) AfterEnd(w *World) {
+	if w.Tainted {
+		return
+	}
 	t := w.T()
 	st := w.ReadState()
 	// refunds in this EndBlock would blur attribution; C12 handles those accounts
